@@ -6,6 +6,10 @@ import DclabModel.Lemmas.Check
   `valid_choices_empty`;
 * closure: `clean_of_guarantees'`, `writer_output_clean` — the description of a file produced by
   the writer from a well-formed history with complete metadata has no violation;
+* `writer_history_index_enumerates`, `writer_history_clean` (append / re-open / replace-mode
+  histories; `stale_offset_breaks_index_witness`), `export_subset_clean`,
+  `export_without_features_clean` (`has_fluorescence` follows the features, not the metadata
+  section; `partial_channel_subset_witness` = F30, open);
 * detection, one theorem per cue, each for an arbitrary rest of the description:
   `detect_feature_length`, `detect_trace_length`, `detect_roi_mismatch`, `detect_unknown_feature`,
   `detect_missing_key`, `detect_index`, `detect_channel_count`, `detect_laser_count`,
@@ -194,6 +198,14 @@ theorem detect_basin_data (d : D) (b : BasinD) (hb : b ∈ d.basins) (hc : b.com
     have hnot' : f ∉ names := by simpa using hnot
     exact ⟨f, ⟨hf, by simp [hnot']⟩, rfl⟩
 
+/-- F36 (open): a file without `event count` and without any non-empty feature cannot be
+    sized — the checker raises instead of reporting the missing key; every description with an
+    event count or a non-empty feature is sized -/
+theorem size_undetermined_witness :
+    sizeUndetermined (cfgGet []) { lenOrder := [0, 0] } = true ∧
+    sizeUndetermined (cfgGet []) { lenOrder := [0, 7] } = false ∧
+    sizeUndetermined (cfgGet [(("experiment", "event count"), natVal 0)]) {} = false := by decide
+
 /-! ## 2. closure -/
 
 /-- whatever description satisfies the consistency facts of `Guarantees` (lengths equal the
@@ -233,6 +245,72 @@ example : violations (writerD
 example : violations (writerD
     { n := 5, scalars := ["deform", "fl1_max"],
       userCfg := [(("fluorescence", "laser count"), natVal 1)] }) ≠ [] := by decide
+
+/-! ### writer histories: append, re-open, `mode="replace"` -/
+
+/-- whatever sequence of appended portions and replace-mode rewrites: the enforced index
+    enumerates the events that are in the file at the end -/
+theorem writer_history_index_enumerates (h : List WOp) :
+    (runHist h).2 = List.range' 1 (runHist h).1 := runHist_index h
+
+/-- … so the file is clean after every such history (complete metadata) -/
+theorem writer_history_clean (w : Written) (h : List WOp)
+    (hm : CompleteMeta { w with n := (runHist h).1, storeIndex := true }) :
+    violations (histD w h) = [] := by
+  rw [histD_eq]
+  exact writer_output_clean _ hm
+
+/-- reading the index offset before the replace-mode deletion continues the enumeration after
+    the deleted data (6+4 events, then 7 events rewritten: 11…17 instead of 1…7) -/
+theorem stale_offset_breaks_index_witness :
+    ([WOp.append 6, .append 4, .replace 7].foldl stepHistStale (0, [])).2 ≠ List.range' 1 7 ∧
+    (runHist [WOp.append 6, .append 4, .replace 7]).2 = List.range' 1 7 := by decide
+
+/-! ### exports of a feature subset, feature-less exports -/
+
+/-- **a subset export of a clean file is clean**: `has_fluorescence` follows the *features*, so
+    dropping the fluorescence features switches the fluorescence checks and the mandatory
+    fluorescence keys off, even though the `[fluorescence]` metadata section is still there.
+    Guard (F30, open): the stored fluorescence channels are kept or dropped together. -/
+theorem export_subset_clean (d : D) (keep : String → Bool) (g : Guarantees d)
+    (hfl : hasFl (subsetD d keep) = true →
+      ∀ ce, ce ∈ chanKeys → hasEvent d ce.2 = true → keep ce.2 = true) :
+    violations (subsetD d keep) = [] :=
+  clean_of_guarantees _ (subset_guarantees d keep g hfl)
+
+/-- a feature-less export (metadata + basins only) of a clean file is clean -/
+theorem export_without_features_clean (d : D) (g : Guarantees d) :
+    violations (subsetD d (fun _ => false)) = [] := by
+  apply export_subset_clean d _ g
+  intro h
+  have : hasFl (subsetD d (fun _ => false)) = false := by
+    simp [hasFl, hasEvent_subsetD]
+  rw [this] at h; cases h
+
+def wTwoChannels : Written :=
+  { n := 5, scalars := ["deform", "fl1_max", "fl2_max"],
+    userCfg := [(("experiment", "date"), none), (("experiment", "run index"), natVal 1),
+      (("experiment", "sample"), none), (("experiment", "time"), none),
+      (("imaging", "flash device"), none), (("imaging", "flash duration"), natVal 2),
+      (("imaging", "frame rate"), natVal 2000), (("imaging", "pixel size"), some (34, 100)),
+      (("imaging", "roi position x"), natVal 1), (("imaging", "roi position y"), natVal 1),
+      (("imaging", "roi size x"), natVal 16), (("imaging", "roi size y"), natVal 12),
+      (("setup", "channel width"), natVal 20), (("setup", "chip region"), none),
+      (("setup", "flow rate"), some (4, 100)), (("setup", "medium"), none),
+      (("fluorescence", "bit depth"), natVal 16), (("fluorescence", "channels installed"), natVal 3),
+      (("fluorescence", "laser count"), natVal 1), (("fluorescence", "lasers installed"), natVal 3),
+      (("fluorescence", "sample rate"), natVal 1000), (("fluorescence", "signal max"), natVal 1),
+      (("fluorescence", "signal min"), some (-1, 1)), (("fluorescence", "trace median"), natVal 0),
+      (("fluorescence", "samples per event"), natVal 9),
+      (("fluorescence", "channel 1 name"), none), (("fluorescence", "channel 2 name"), none),
+      (("fluorescence", "laser 1 lambda"), natVal 488), (("fluorescence", "laser 1 power"), natVal 5)] }
+
+/-- F30 (open): keeping one of two stored fluorescence channels leaves `channel count = 2`
+    behind; dropping both (or none) is clean -/
+theorem partial_channel_subset_witness :
+    violations (writerD wTwoChannels) = [] ∧
+    violations (subsetD (writerD wTwoChannels) (fun f => f != "fl2_max")) = [Cue.channelCount] ∧
+    violations (subsetD (writerD wTwoChannels) (fun f => f == "deform")) = [] := by decide
 
 /-! ## 3. copies -/
 
